@@ -113,7 +113,7 @@ func spelling(base *lib.ProfileDoc, r *rand.Rand) (string, []string, bool) {
 	choose := func() string { return "ex" }
 	switch mode {
 	case 1:
-		fresh := pick(r, "p9", "Zed", "my-prefix", "x1y2")
+		fresh := pick(r, "p9", "Zed", "my-prefix", "x1y2", "core", "core") // also the NAME of a built-in prefix, re-bound by the profile
 		choose = func() string { return fresh }
 		p.Prefixes = [][2]string{{fresh, lib.EX}}
 		applied = append(applied, "prefix-renamed")
@@ -135,8 +135,19 @@ func spelling(base *lib.ProfileDoc, r *rand.Rand) (string, []string, bool) {
 		p.Prefixes = append(p.Prefixes, [2]string{extPrefix, "http://a.ml/vocabularies/api-extension#"})
 		applied = append(applied, "builtin-prefix-twin(apiExt)")
 	}
+	// the built-in prefix `core` (used by the base spelling without declaring it) may be written through a declared
+	// twin; it must be when the profile re-binds the name `core` to its own namespace
+	coreSpelling := "core"
+	if choose() == "core" || r.Intn(3) == 0 {
+		coreSpelling = "mycore"
+		p.Prefixes = append(p.Prefixes, [2]string{"mycore", "http://a.ml/vocabularies/core#"})
+		applied = append(applied, "builtin-prefix-twin(core)")
+	}
 	ren := func(s string) string {
-		return strings.ReplaceAll(renamePrefix(s, choose), "apiExt.", extPrefix+".")
+		const guard = "\x00CORE\x00"
+		t := strings.ReplaceAll(s, "core.", guard)
+		t = strings.ReplaceAll(renamePrefix(t, choose), "apiExt.", extPrefix+".")
+		return strings.ReplaceAll(t, guard, coreSpelling+".")
 	}
 	shuffle := r.Intn(4) != 0
 	if shuffle {
@@ -258,6 +269,16 @@ func c15Base(r *rand.Rand, i int) (*lib.ProfileDoc, *lib.Graph) {
 		lib.Validation{Name: "custom-property-nested", TargetClass: "ex.Cust", Message: "annotation value",
 			Body: lib.PC1("apiExt.wadus", lib.CNested(lib.PC1("data.value", lib.CScalar("pattern", lib.Str("^zzz")))))})
 	prof.Violation = append(prof.Violation, "custom-property", "custom-property-nested")
+	// a validation over a built-in vocabulary, written with the built-in prefix and no declaration
+	for k := 0; k < 3; k++ {
+		n := g.AddNode(fmt.Sprintf("%scorething%d", lib.EX, k), "http://a.ml/vocabularies/core#Thing")
+		if k != 1 {
+			n.Add("http://a.ml/vocabularies/core#name", lib.StrV(fmt.Sprintf("name%d", k)))
+		}
+	}
+	prof.Validations = append(prof.Validations, lib.Validation{Name: "builtin-vocabulary", TargetClass: "core.Thing", Message: "thing {{core.name}} needs a name",
+		Body: lib.PC1("core.name", lib.CScalar("minCount", lib.Int(1)), lib.CScalar("pattern", lib.Str("^name[02]$")))})
+	prof.Warning = append(prof.Warning, "builtin-vocabulary")
 	return prof, g
 }
 
@@ -272,7 +293,7 @@ func c15(tier string) {
 	if !ctx.IsShard() {
 		ctx.RunShards()
 		ctx.MinDistinct = 100
-		for _, t := range []string{"prefix-renamed", "prefix-twin", "builtin-prefix-redeclared", "operand/entry/constraint-order", "level-list-order", "mapping-key-order", "flow-style", "quoting", "comments", "blank-lines", "trailing-spaces", "indentation", "document-start-marker", "builtin-prefix-twin(apiExt)"} {
+		for _, t := range []string{"prefix-renamed", "prefix-twin", "builtin-prefix-redeclared", "operand/entry/constraint-order", "level-list-order", "mapping-key-order", "flow-style", "quoting", "comments", "blank-lines", "trailing-spaces", "indentation", "document-start-marker", "builtin-prefix-twin(apiExt)", "builtin-prefix-twin(core)"} {
 			if ctx.Counter("rewrite:"+t) == 0 {
 				ctx.Inconclusive("rewrite never applied: " + t)
 			}
